@@ -140,9 +140,19 @@ def clsstr(text, cap=24):
 
 
 def variants(kind, user, limit, text):
-    out = []
-    for i in range(len(text)):
-        out.append((limit, text[:i] + text[i + 1:]))
+    # ddmin-style: delete big chunks first, then smaller ones, then single characters; finally lower the limit
+    out, seen = [], set()
+    n = len(text)
+    size = max(n // 2, 1)
+    while n and size >= 1:
+        for start in range(0, n, size):
+            t = text[:start] + text[start + size:]
+            if tuple(t) not in seen:
+                seen.add(tuple(t))
+                out.append((limit, t))
+        if size == 1:
+            break
+        size //= 2
     if limit - overhead(kind, user) > 1:
         out.append((limit - 1, text))
     return out
@@ -190,17 +200,17 @@ def report(ctx, traces, rej):
         return (c["kind"], tuple(c["user"]), c["limit"], tuple(text))
 
     cur = {}
-    for t, only_len in rest[:30]:
+    for t, only_len in sorted(rest, key=lambda r: len(r[0]["ev"][0]["text"]))[:20]:
         c, e = t["cfg"], t["ev"][0]
         cur[k(c, e["text"])] = (c, e["text"], t)
     final = {}
-    for _ in range(25):
+    for _ in range(12):
         if not cur:
             break
         cand = {}
         for kk, (c, text, t) in cur.items():
             vs = []
-            for lim, tx in variants(c["kind"], c["user"], c["limit"], text)[:80]:
+            for lim, tx in variants(c["kind"], c["user"], c["limit"], text)[:150]:
                 c2 = dict(c, limit=lim)
                 k2 = k(c2, tx)
                 if k2 not in memo and k2 not in cand:
@@ -213,7 +223,7 @@ def report(ctx, traces, rej):
         nxt = {}
         for kk, (c, text, t) in cur.items():
             hit = None
-            for lim, tx in variants(c["kind"], c["user"], c["limit"], text)[:80]:
+            for lim, tx in variants(c["kind"], c["user"], c["limit"], text)[:150]:
                 k2 = k(dict(c, limit=lim), tx)
                 if memo.get(k2, (False,))[0]:
                     hit = (dict(c, limit=lim), tx, memo[k2][1])
@@ -230,8 +240,8 @@ def report(ctx, traces, rej):
         ctx.violation("send/%s/min-text-classes=%s/avail=%d" % ("exception:" + e["exc"] if e["exc"] else "relation", clsstr(text) or "empty", avail),
                       "IRCClient.%s(%r, %r, length=%d) wrote %r exc=%r" % (c["kind"], "".join(map(chr, c["user"])), "".join(map(chr, text)), c["limit"], bytes(e["stream"])[:300], e["exc"]),
                       dict(kind="send", cmd=c["kind"], user=c["user"], limit=c["limit"], text=text))
-    if len(rest) > 30:
-        ctx.extra["rejected_runs_not_shrunk"] = len(rest) - 30
+    if len(rest) > 20:
+        ctx.extra["rejected_runs_not_shrunk"] = len(rest) - 20
 
 
 def nontrivial(t):
@@ -255,14 +265,14 @@ def run(ctx):
     if not rc.ok:
         raise MachineryError("IrcSplit control run failed: " + rc.error)
     ctx.require_actions("IrcSplitMC", ["ExtendAny", "SendPack", "SendWords", "SendRefuse", "SendCharCount", "DoQuote"])
-    cex = [json.loads(v[1]) for v in extract_printed(rc.out, "CEX")]
+    cex = [json.loads(j) for j in sorted({v[1] for v in extract_printed(rc.out, "CEX")})]   # sorted: TLC workers print in any order
     if not cex:
         raise MachineryError("vacuity: the relation accepts the character-counting control splitter everywhere")
     ctx.extra["control_violations_found_by_tlc"] = len(cex)
 
     traces = []
     # (1) exhaustive: every short text over the class alphabet x every limit leaving 0..5 octets for the message part
-    L = ctx.pick(3, 5)
+    L = ctx.pick(3, 4)
     user = [117]
     for kind in ctx.pick(["msg"], ["msg", "notice"]):
         for avail in ctx.pick([0, 1, 2, 4], [0, 1, 2, 3, 4, 5, 7]):
@@ -280,7 +290,7 @@ def run(ctx):
             traces.append(run_send(b["kind"], b["user"], b["limit"], b["text"]))
     ctx.extra["control_violations_replayed_on_real_client"] = len(seen)
     # (3) random long texts, random targets and limits
-    for _ in range(ctx.pick(1200, 40000)):
+    for _ in range(ctx.pick(1200, 20000)):
         kind = ctx.rng.choice(["msg", "notice"])
         usr = [ord(ch) for ch in ctx.rng.choice(["u", "#chan", "nick123", "&x"])]
         oh = overhead(kind, usr)
